@@ -54,6 +54,139 @@ def _recv_adt(c, n):
     return t["p"] if t["k"] == "adt" else None
 
 
+def _lookup_priority(prog, fc, b):
+    """Which table decides the answer of LookupTable::lookup, in order of priority: ['L', 'G'] = a local hit wins, the global table is
+    the fallback.  None: a shape this evaluation does not follow."""
+    envs = {}
+    cur = [b["p"]]
+
+    def bind(hb):
+        # (binding ids are per body)
+        env_ = envs.setdefault(hb["p"], {})
+        for n in hir.nodes(hb["body"]):
+            if n.get("k") in ("Let", "LetExpr") and n.get("init") is not None and n.get("pat"):
+                for bd in hir.pat_bindings(n["pat"]):
+                    env_.setdefault(bd["id"], n["init"])
+
+    bind(b)
+    seen_src = {}
+
+    def srcs(e, depth=0):
+        r = set()
+        if e is None or depth > 6:
+            return r
+        env = envs[cur[0]]
+        for n in hir.nodes_deep(prog, e, 3, crate=fc):
+            if n.get("k") == "Field" and n["name"] in ("local_table", "global_table") and hir.adt_path(fc, hir.strip(n["base"])["t"]) == LT:
+                r.add("L" if n["name"] == "local_table" else "G")
+        for n in hir.nodes(e):
+            if n.get("k") == "Path" and n["res"].get("k") == "Local" and n["res"]["id"] in env:
+                i_ = (cur[0], n["res"]["id"])
+                if i_ not in seen_src:
+                    seen_src[i_] = set()
+                    seen_src[i_] = srcs(env[i_[1]], depth + 1)
+                r |= seen_src[i_]
+        return r
+
+    def into(hb, depth):
+        bind(hb)
+        old = cur[0]
+        cur[0] = hb["p"]
+        try:
+            return ev(hb["body"], depth + 2)
+        finally:
+            cur[0] = old
+
+    def cat(*parts):
+        res = []
+        for p_ in parts:
+            if p_ is None:
+                return None
+            for x in p_:
+                if x not in res:
+                    res.append(x)
+        return res
+
+    def some_pat(p_):
+        return p_ is not None and p_.get("k") == "TupleStruct" and any(v.endswith("Option::Some") for v in hir.pat_variants_all(p_))
+
+    def ev(e, depth=0):
+        if e is None:
+            return []
+        if depth > 12:
+            return None
+        e = hir.strip_ref(hir.strip(e))
+        s_ = srcs(e)
+        if len(s_) <= 1:
+            return sorted(s_)
+        k = e.get("k")
+        if k == "MethodCall":
+            m = e["m"]
+            if m in ("or_else", "or") and e["args"]:
+                return cat(ev(e["recv"], depth + 1), ev(e["args"][0], depth + 1))
+            if m == "map_or_else" and len(e["args"]) == 2 and not srcs(e["args"][1]):
+                return cat(ev(e["recv"], depth + 1), ev(e["args"][0], depth + 1))
+            if m == "map_or" and len(e["args"]) == 2 and not srcs(e["args"][1]):
+                return cat(ev(e["recv"], depth + 1), ev(e["args"][0], depth + 1))
+            if m in ("map", "and_then", "cloned", "copied", "filter", "inspect", "into", "as_ref", "as_deref") and not any(srcs(a_) for a_ in e["args"]):
+                return ev(e["recv"], depth + 1)
+            hb = hir.local_callee_body(prog, e)
+            if hb is not None and hb["_crate"] is fc and not srcs(e["recv"]) - srcs(hb["body"]) and not any(srcs(a_) for a_ in e["args"]):
+                return into(hb, depth)
+            return None
+        if k == "Closure":
+            return ev(e["body"], depth + 1)
+        if k in ("Try", "Await", "Ret"):
+            return ev(e.get("e"), depth + 1)
+        if k == "Call":
+            if last((hir.path_def(e["f"]) or {}).get("ctor_of", "")) == "Some" and e["args"]:
+                return ev(e["args"][0], depth + 1)
+            if sum(1 for a_ in e["args"] if srcs(a_)) == 1 and hir.local_callee_body(prog, e) is None:
+                # a conversion of the one argument that carries the answer (`Entry::from(x)`)
+                return ev([a_ for a_ in e["args"] if srcs(a_)][0], depth + 1)
+            hb = hir.local_callee_body(prog, e)
+            if hb is not None and hb["_crate"] is fc and not any(srcs(a_) for a_ in e["args"]):
+                return into(hb, depth)
+            return None
+        if k == "Path" and e["res"].get("k") == "Local" and e["res"]["id"] in envs[cur[0]]:
+            return ev(envs[cur[0]][e["res"]["id"]], depth + 1)
+        if k == "BlockExpr" or k == "Block":
+            blk = e["b"] if k == "BlockExpr" else e
+            order = []
+            for st in blk["stmts"]:
+                if st.get("k") == "Let":
+                    if st.get("els") is not None and srcs(st["els"]):
+                        return None
+                    continue  # evaluated where the binding is used: what counts is which value wins, not which is computed first
+                inner = hir.strip(hir.stmt_inner(st) or {})
+                if not srcs(inner):
+                    continue
+                if inner.get("k") == "If" and inner.get("else") is None and hir.strip(inner["cond"]).get("k") == "LetExpr" and \
+                        some_pat(hir.strip(inner["cond"])["pat"]) and any(True for _ in hir.nodes(inner["then"], "Ret")):
+                    cnd = hir.strip(inner["cond"])
+                    if srcs(inner["then"]) - srcs(cnd["init"]):
+                        return None
+                    order = cat(order, ev(cnd["init"], depth + 1))
+                    continue
+                return None
+            return cat(order, ev(blk.get("expr"), depth + 1))
+        if k == "If" and e.get("else") is not None:
+            cnd = hir.strip(e["cond"])
+            if cnd.get("k") == "LetExpr" and some_pat(cnd["pat"]) and not (srcs(e["then"]) - srcs(cnd["init"])):
+                return cat(ev(cnd["init"], depth + 1), ev(e["else"], depth + 1))
+            return None
+        if k == "Match" and len(e["arms"]) == 2:
+            a_some = [a_ for a_ in e["arms"] if some_pat(a_["pat"])]
+            a_none = [a_ for a_ in e["arms"] if not some_pat(a_["pat"])]
+            if len(a_some) == 1 and len(a_none) == 1 and not a_some[0].get("guard") and not (srcs(a_some[0]["body"]) - srcs(e["scrut"])):
+                return cat(ev(e["scrut"], depth + 1), ev(a_none[0]["body"], depth + 1))
+            return None
+        return None
+
+    return ev(b["body"])
+
+
+
 # ------------------------------------------------------------------ SCOPE-ORDER
 
 def rule_scope_order(prog):
@@ -66,41 +199,14 @@ def rule_scope_order(prog):
         out.missing("table::LookupTable::lookup")
     else:
         b = lk[0]
-        ok = False
-        why = "no fallback structure found"
-        for n, parents in hir.walk(b["body"]):
-            if n.get("k") == "Field" and n["name"] == "global_table":
-                # must sit inside a closure that is the *fallback* argument of map_or_else / or_else / unwrap_or_else
-                clo = [p for p in parents if p.get("k") == "Closure"]
-                if clo:
-                    ci = parents.index(clo[-1])
-                    call = parents[ci - 1] if ci > 0 else None
-                    if call and call.get("k") == "MethodCall" and call["m"] in ("map_or_else", "or_else", "unwrap_or_else"):
-                        is_first_arg = hir.strip(call["args"][0]) is clo[-1]
-                        recv_has_local = any(x.get("k") == "Field" and x["name"] == "local_table" for x in hir.nodes(call["recv"]))
-                        ok = is_first_arg and recv_has_local
-                        why = "global_table is consulted in the fallback of `%s` on the local lookup" % call["m"]
-                else:
-                    # if/else or match form: global lookup must be in an else/None branch after a local lookup
-                    ifs = [p for p in parents if p.get("k") in ("If", "Match")]
-                    for p in ifs:
-                        cond = p.get("cond") or p.get("scrut")
-                        if any(x.get("k") == "Field" and x["name"] == "local_table" for x in hir.nodes(cond)):
-                            ok = True
-                            why = "global_table is consulted after a test of the local lookup"
-        if not ok:
-            # early-return form: a statement in front of the first use of the global table looks into the local table and returns its hit
-            blk_ = hir.strip(b["body"])
-            stmts_ = (blk_["b"]["stmts"] + ([blk_["b"]["expr"]] if blk_["b"].get("expr") else [])) if blk_.get("k") == "BlockExpr" else []
-            first_g = next((i_ for i_, s_ in enumerate(stmts_) if any(x.get("k") == "Field" and x["name"] == "global_table" for x in hir.nodes(s_))), None)
-            if first_g is not None:
-                for s_ in stmts_[:first_g]:
-                    has_local = any(x.get("k") == "Field" and x["name"] == "local_table" for x in hir.nodes(s_))
-                    returns_hit = any(r_.get("k") == "Ret" and r_.get("e") is not None and any(
-                        last(p_["res"].get("ctor_of", "")) == "Some" for p_ in hir.nodes(r_["e"], "Path")) for r_ in hir.nodes(s_))
-                    if has_local and returns_hit and not any(x.get("k") == "Field" and x["name"] == "global_table" for x in hir.nodes(s_)):
-                        ok = True
-                        why = "a hit in the local table is returned before the global table is looked at"
+        order = _lookup_priority(prog, fc, b)
+        if order is None:
+            ok, why = None, "the order in which the two tables decide the answer is not of a shape this rule follows"
+        elif order == ["L", "G"]:
+            ok, why = True, "a hit in the local table wins, the global table is the fallback"
+        else:
+            ok, why = False, "the answer is decided by the tables in the order %s (L = local, G = global): a local variable or parameter " \
+                "no longer shadows a global declaration of the same name, or globals are not found at all" % order
         out.add("table::LookupTable::lookup", "local table is consulted before the global table", ok, fc.loc(b["sp"]), why, ("order",))
     # (2) inside a procedure context the cursor identifier is resolved through a LookupTable built from that procedure
     n_sites = 0
@@ -431,7 +537,9 @@ def rule_scope_order(prog):
             guarded = False
             for pr_ in parents:
                 pass
-            for iff in hir.nodes(b["body"], "If"):
+            # (the comparison may sit in a small predicate: `if is_redeclaration(procedure, offset, entry) { return; }`)
+            b_inl = hir.inline_calls(prog, b["body"], fc, depth=2)
+            for iff in list(hir.nodes(b["body"], "If")) + list(hir.nodes(b_inl, "If")):
                 for bn in hir.nodes(iff["cond"], "Binary"):
                     if bn["op"] in ("!=", "==", "Ne", "Eq"):
                         sides = [bn["l"], bn["r"]]
@@ -866,14 +974,39 @@ def _only_used_in_global_position(prog, b, lit, parents):
         if p.get("k") == "Let" and p["pat"].get("k") == "Binding":
             let = p
             break
-    if let is None:
+    uses = []
+    # (the literal may be a field of a small struct that bundles the scoped and the global-only table: its uses are the reads of that
+    # field, wherever they are)
+    holder = None
+    for p in reversed(parents):
+        if p.get("k") == "Struct" and p is not lit and (p.get("adt") or "").startswith("lsp4spl::"):
+            fl_ = [f_["name"] for f_ in p["fields"] if any(x_ is lit for x_ in hir.nodes(f_["e"]))]
+            if len(fl_) == 1:
+                holder = (p["adt"], fl_[0])
+            break
+        if p.get("k") == "Let":
+            break
+    if holder is not None:
+        for y in bc.bodies:
+            if "/tests" in bc.file_of(y["sp"]) or y["k"] == "closure":
+                continue
+            for n, ps in hir.walk(y["body"]):
+                if n.get("k") == "Field" and n["name"] == holder[1]:
+                    bt_ = hir.strip(n["base"])
+                    t_ = hir.adt_path(bc, bt_["t"])
+                    for ad_ in bt_.get("adj") or []:
+                        t_ = hir.adt_path(bc, ad_["to"]) or t_
+                    if t_ == holder[0]:
+                        uses.append((y, n, ps))
+    elif let is None:
         return False
-    lid = let["pat"]["id"]
-    uses = [(n, ps) for n, ps in hir.walk(b["body"]) if (hir.path_local(n) or {}).get("id") == lid]
+    else:
+        lid = let["pat"]["id"]
+        uses = [(b, n, ps) for n, ps in hir.walk(b["body"]) if (hir.path_local(n) or {}).get("id") == lid]
     if not uses:
         return False
     unsure = False
-    for n, ps in uses:
+    for b, n, ps in uses:
         ok = False
         chain = list(ps) + [n]
         for i, p in enumerate(chain[:-1]):
@@ -1451,6 +1584,17 @@ def rule_semtok_pairing(prog):
                 r = hir.strip(n["r"])
                 pos_ok = r.get("k") == "Call" and asp is not None and (hir.callee(r) or "") == asp["p"] and \
                     any((place(r["args"][0]) or "") == "%s.range.start" % t_ for t_ in toks)
+                if not pos_ok and r.get("k") == "Call" and asp is not None and (hir.callee(r) or "") == asp["p"]:
+                    # the iteration runs over the indices: `(0..tokens.len()).filter_map(|index| ..)` - this token is `tokens[index]`
+                    a0_ = hir.strip(r["args"][0])
+                    if a0_.get("k") == "Field" and a0_["name"] == "start" and hir.strip(a0_["base"]).get("k") == "Field" and \
+                            hir.strip(a0_["base"])["name"] == "range":
+                        ixe_ = hir.strip(hir.strip(a0_["base"])["base"])
+                        if ixe_.get("k") == "Index" and "Token" in c.tstr(hir.strip(ixe_["base"])["t"]):
+                            il_ = hir.path_local(hir.strip(ixe_["idx"]))
+                            pids_ = [bd["id"] for pp in pats for bd in hir.pat_bindings(pp)]
+                            if il_ and il_["id"] in pids_:
+                                pos_ok = True
                 # the guard
                 body_ = scope["body"]
                 blk = hir.strip(body_)
@@ -2274,6 +2418,100 @@ def rule_comment_pairing(prog):
 
 # ------------------------------------------------------------------ SAME-FINDER
 
+def _body_of(c, node, default):
+    """the body (fn or closure-free fn body) that contains node"""
+    for b in c.bodies:
+        if b["k"] == "closure":
+            continue
+        sp, nsp = b["body"].get("sp"), node.get("sp")
+        if b is default:
+            continue
+        if any(x is node for x in hir.nodes(b["body"])):
+            return b
+    return default
+
+
+def _origin(prog, c, b, e, depth=0):
+    """Where a value comes from, spelled without the names of locals: `call:doc_cursor.context`.  `?` marks a part that is not followed
+    (a value handed through a local helper of the module, a parameter of a closure, ..)."""
+    if depth > 14 or e is None:
+        return "?"
+    e = hir.strip_ref(hir.strip(e))
+    k = e.get("k")
+    if k == "MethodCall" and e["m"] in ("clone", "as_ref", "to_owned", "borrow", "deref", "as_deref", "cloned", "unwrap", "expect", "into"):
+        return _origin(prog, c, b, e["recv"], depth + 1)
+    if k in ("Await", "Try", "Unary"):
+        return _origin(prog, c, b, e.get("e"), depth + 1)
+    if k == "Field":
+        return _origin(prog, c, b, e["base"], depth + 1) + "." + e["name"]
+    if k == "MethodCall":
+        return _origin(prog, c, b, e["recv"], depth + 1) + "." + e["m"] + "()"
+    if k == "Call":
+        hb = hir.local_callee_body(prog, e)
+        nm = last(hir.callee(e) or "?")
+        if hb is not None and hb["p"].rsplit("::", 1)[0] == b["p"].rsplit("::", 1)[0]:
+            return "?" + nm
+        if last((hir.path_def(e["f"]) or {}).get("ctor_of", "")) in ("Some", "Ok") and e["args"]:
+            return _origin(prog, c, b, e["args"][0], depth + 1)
+        return "call:" + nm
+    if k == "Match":
+        live = [a_ for a_ in e["arms"] if hir.strip(a_["body"]).get("k") not in ("Ret", "Continue", "Break")]
+        if len(live) == 1:
+            pl = hir.path_local(live[0]["body"])
+            pth = _pat_path(live[0]["pat"], pl["id"]) if pl else None
+            if pth is not None:
+                return _origin(prog, c, b, e["scrut"], depth + 1) + pth
+        return "?"
+    if k == "Path" and e["res"].get("k") == "Local":
+        i_ = e["res"]["id"]
+        for pp in b["params"]:
+            if any(bd["id"] == i_ for bd in hir.pat_bindings(pp)):
+                return "param:" + c.tstr(e["t"]).replace("&", "").replace("mut ", "").strip()
+        for n in hir.nodes(b["body"]):
+            if n.get("k") in ("Let", "LetExpr") and n.get("init") is not None and n.get("pat"):
+                pth = _pat_path(n["pat"], i_)
+                if pth is not None:
+                    return _origin(prog, c, b, n["init"], depth + 1) + pth
+            if n.get("k") == "Match":
+                for a_ in n["arms"]:
+                    pth = _pat_path(a_["pat"], i_)
+                    if pth is not None:
+                        return _origin(prog, c, b, n["scrut"], depth + 1) + pth
+        return "?"
+    return "?"
+
+
+def _pat_path(p, bid):
+    """the field path from the matched value to binding bid inside pattern p (`Some(..)`/`Ok(..)`/references are transparent)"""
+    p = hir.pat_strip(p)
+    k = p.get("k")
+    if k == "Binding":
+        if p["id"] == bid:
+            return ""
+        return _pat_path(p["sub"], bid) if p.get("sub") else None
+    if k == "TupleStruct":
+        v = hir.pat_variant(p) or ""
+        for i_, q in enumerate(p["pats"]):
+            r = _pat_path(q, bid)
+            if r is not None:
+                return r if last(v) in ("Some", "Ok") else ".%s.%d%s" % (last(v), i_, r)
+        return None
+    if k == "Struct":
+        for f in p["fields"]:
+            r = _pat_path(f["pat"], bid)
+            if r is not None:
+                return "." + f["name"] + r
+        return None
+    if k in ("Tuple", "Or"):
+        for i_, q in enumerate(p["pats"]):
+            r = _pat_path(q, bid)
+            if r is not None:
+                return (".%d" % i_ if k == "Tuple" else "") + r
+        return None
+    return None
+
+
+
 def rule_same_finder(prog):
     """find-references and rename obtain their occurrences from the same finder with the same arguments."""
     out = Out("SAME-FINDER")
@@ -2352,7 +2590,7 @@ def rule_same_finder(prog):
             if calls or not nxt_:
                 break
             level = nxt_
-        sigs[fn] = [(p_,) + tuple((place(hir.strip_ref(a)) or "?").split("#")[0] for a in n["args"]) for p_, n in calls]
+        sigs[fn] = [(p_,) + tuple(_origin(prog, c, _body_of(c, n, b), a) for a in n["args"]) for p_, n in calls]
         r = tokens_arg_ok(b)
         ok_tk = r if r in (True, False) else None
         out.add("references::" + fn, "occurrences are converted against the whole token vector", ok_tk,
@@ -2413,9 +2651,18 @@ def rule_same_finder(prog):
             c.loc(pruned[1]["sp"]) if pruned else "", ("`.%s(..)` on the occurrences in %s; " % (pruned[1]["m"], pruned[0]["d"]) if pruned else "") +
             "find-references answers exactly the other occurrences of the binding: dropping `the first` one loses a call that stands above the "
             "declaration, or the declaration itself when the request was made on a use", ("pruned",))
-    out.add("references", "find and rename use the same finder with the same arguments",
-            (len(sigs["find"]) == 1 and sigs["find"] == sigs["rename"]) if (sigs["find"] or sigs["rename"]) else None, "",
-            "find: %s rename: %s" % (sigs["find"], sigs["rename"]))
+    same_ = None
+    if sigs["find"] or sigs["rename"]:
+        if len(sigs["find"]) == 1 and sigs["find"] == sigs["rename"]:
+            same_ = True
+        elif len(sigs["find"]) == 1 and len(sigs["rename"]) == 1 and sigs["find"][0][0] == sigs["rename"][0][0] and \
+                len(sigs["find"][0]) == len(sigs["rename"][0]) and all(
+                    x_ == y_ or "?" in x_ or "?" in y_ for x_, y_ in zip(sigs["find"][0][1:], sigs["rename"][0][1:])):
+            same_ = None  # same finder; where an argument comes from is not traceable on one side
+        else:
+            same_ = False
+    out.add("references", "find and rename use the same finder with the same arguments", same_, "",
+            "find: %s rename: %s (an argument is named by where it comes from)" % (sigs["find"], sigs["rename"]))
     # prepare-rename offers a rename exactly when rename performs one: both refuse under the same conditions
     def shape(e, depth=0):
         e = hir.strip_ref(e)
@@ -2462,7 +2709,30 @@ def rule_same_finder(prog):
                 tail_ = hir.strip(tail_["b"]["expr"])
             else:
                 break
-        for iff in hir.nodes(b["body"], "If"):
+        # (the refusals may sit in a helper of the module the function calls: `rename_target(params, doctx).await?`)
+        roots_ = [b["body"]]
+        lvl_ = [b]
+        for _ in range(2):
+            nx_ = []
+            for lb in lvl_:
+                for cl_ in hir.nodes(lb["body"], "Call"):
+                    hb = hir.local_callee_body(prog, cl_)
+                    if hb is not None and hb["_crate"] is c and hb["p"].startswith("lsp4spl::features::references") and \
+                            "sig_out" in hb and "Option<" in c.tstr(hb["sig_out"]) and hb["body"] not in roots_ and hb["k"] != "closure":
+                        roots_.append(hb["body"])
+                        nx_.append(hb)
+            lvl_ = nx_
+        # `cond.then(|| answer)` / `cond.then_some(answer)`: nothing is answered unless cond
+        for r0_ in roots_:
+            for mc_ in hir.nodes(r0_, "MethodCall"):
+                if mc_["m"] in ("then", "then_some") and c.tstr(hir.strip(mc_["recv"])["t"]) == "bool":
+                    cond_ = hir.strip(mc_["recv"])
+                    neg = False
+                    while cond_.get("k") == "Unary" and cond_.get("op") in ("!", "Not", "not"):
+                        neg = not neg
+                        cond_ = hir.strip(cond_["e"])
+                    conds.append(("refuse-if " if neg else "refuse-unless ") + shape(cond_))
+        for iff in [x_ for r0_ in roots_ for x_ in hir.nodes(r0_, "If")]:
             if hir.strip(iff["cond"]).get("k") == "LetExpr":
                 continue
             rets = [r for r in hir.nodes(iff["then"], "Ret")]
@@ -2490,7 +2760,13 @@ def rule_same_finder(prog):
     if rb_ is not None:
         by_binding = False
         by_spelling = None
-        for iff in hir.nodes(rb_["body"], "If"):
+        rroots_ = [rb_["body"]]
+        for cl_ in hir.nodes(rb_["body"], "Call"):
+            hb = hir.local_callee_body(prog, cl_)
+            if hb is not None and hb["_crate"] is c and hb["p"].startswith("lsp4spl::features::references") and \
+                    "sig_out" in hb and "Option<" in c.tstr(hb["sig_out"]) and hb["k"] != "closure":
+                rroots_.append(hb["body"])
+        for iff in [x_ for r0_ in rroots_ for x_ in hir.nodes(r0_, "If")]:
             if hir.strip(iff["cond"]).get("k") == "LetExpr":
                 continue
             rets = [r for r in hir.nodes(iff["then"], "Ret")]
@@ -2508,7 +2784,7 @@ def rule_same_finder(prog):
                 % ("refuses by comparing the identifier's text with a literal" if by_spelling is not None else "has no refusal that asks `is_default()`"))
     if len(refusals) == 2:
         out.add("references", "prepare-rename refuses under exactly the conditions under which rename refuses",
-                refusals["rename"] == refusals["prepare_rename"] and bool(refusals["rename"]), "",
+                (refusals["rename"] == refusals["prepare_rename"]) if (refusals["rename"] or refusals["prepare_rename"]) else None, "",
                 "rename refuses on %s, prepare-rename on %s: a name for which one of them answers and the other does not is offered for "
                 "renaming and then not renamed (or the other way round)" % (refusals["rename"], refusals["prepare_rename"]))
     return out
